@@ -17,7 +17,11 @@ func main() {
 	hk.Main(&hk.Component{Name: "lifecycle", Rule: "server: histories over {RegisterTool, UnregisterTools, RegisterPrompt, RegisterResource(s), RegisterResourceTemplate (incl. empty keys), initialize(v)} " +
 		"with v over supported versions, near misses, empty, long, control and non-ASCII strings, against the real streamable server (raw POSTs; 3 session modes, JSON and SSE answers) " +
 		"and through the three real clients against the real streamable / SSE / stdio servers: all 8 subsets of capability kinds x all versions, every pair of registrations between three initializes, seeded random longer ones; " +
+		"several initializes on ONE session / connection of the real streamable (Mcp-Session-Id re-sent, JSON and SSE answers; public client Initialize / Close / Initialize), legacy SSE (raw connection) and stdio (pipes, child process) servers: " +
+		"all ordered pairs (a registration in between) and triples over {2025-03-26, 2024-11-05, 1999-01-01, 9999-12-31, empty, 2025-01-01}, seeded random longer ones; " +
 		"non-trivial = a history whose answers differ in version or capabilities. " +
+		"concurrent: 16 goroutines x 600 handshakes behind a common gate straight into the streamable handler (stateful / stateless / sessions off, fresh session each), 8 stdio connections x 150 pipelined initializes, 8 raw SSE connections x 64 " +
+		"against one server with a prompt and a resource registered (every answer must advertise both) and one with none (never); thorough = 10 rounds; non-trivial = an answer of a server with registrations. " +
 		"client: call histories over {Initialize x (ok, network error, HTTP 500, JSON-RPC error, unparsable result, undeliverable initialized notification), the six request operations (answered ok / with an error), " +
 		"SendRootsListChangedNotification, SendInitialized, TerminateSession, RestartProcess, Close} on mcp.NewClient, mcp.NewSSEClient (every HTTP round trip recorded at the RoundTripper) and mcp.NewStdioClient " +
 		"(every line recorded by the child process): every history of length 3 over a reduced alphabet, every request operation after every prefix of length <= 2, seeded random longer ones; " +
@@ -35,13 +39,14 @@ func run(c *hk.Ctx) {
 	runEndToEnd(c)
 	timing["end_to_end_s"] = time.Since(t0).Seconds()
 	t0 = time.Now()
+	runClientSide(c)
+	timing["client_s"] = time.Since(t0).Seconds()
+	// (the phases below were added later: they come last so that the seeded choices of the earlier ones stay what they were)
+	t0 = time.Now()
 	runSameSessionPhase(c)
 	timing["same_session_s"] = time.Since(t0).Seconds()
 	t0 = time.Now()
 	runConcurrentPhase(c)
 	timing["concurrent_s"] = time.Since(t0).Seconds()
-	t0 = time.Now()
-	runClientSide(c)
-	timing["client_s"] = time.Since(t0).Seconds()
 	c.SetExtra("timing", timing)
 }
